@@ -33,6 +33,12 @@ def masked_config(bit, proc, numeric=False):
 def _drive(args):
     seed, bit, proc, codec, numeric = args
     bc = masked_config(bit, proc, numeric)
+    if int(bit) % 2 == 0 and not numeric:
+        # same configuration OBJECT: first used without the processor, then masking is switched on in place
+        del bc[bit]['field_processor']
+        warm = isoc.iso8583.dumps({'MTI': '1240', 'DE' + bit: '4000123412341234'}, encoding=codec, iso_config=bc)
+        isoc.iso8583.loads(warm, encoding=codec, iso_config=bc)
+        bc[bit]['field_processor'] = proc
     alpha = isoc.alphabet(codec)
     cap = 99 if bc[bit]['field_type'] == 'LLVAR' else 999
     out = []
